@@ -12,6 +12,7 @@ mod camp;
 mod camp_single;
 mod camp_conc;
 mod camp_fault;
+mod camp_origin;
 mod conc;
 mod mon_dg;
 mod mon;
